@@ -17,7 +17,6 @@ package gomatrixserverlib
 import (
 	"context"
 	"crypto/ed25519"
-	"encoding/json"
 	"fmt"
 	"slices"
 
@@ -182,7 +181,7 @@ func checkRestrictedJoin(
 		return "", nil
 	}
 	var joinRules JoinRuleContent
-	if err = json.Unmarshal(joinRulesEvent.Content(), &joinRules); err != nil {
+	if err = unmarshalExact(joinRulesEvent.Content(), &joinRules); err != nil {
 		return "", fmt.Errorf("json.Unmarshal: %w", err)
 	}
 
@@ -474,7 +473,7 @@ func HandleSendJoin(input HandleSendJoinInput) (*HandleSendJoinResponse, error) 
 	// If the membership content contains a user ID for a server that is not
 	// ours then we should kick it back.
 	var memberContent MemberContent
-	if err := json.Unmarshal(event.Content(), &memberContent); err != nil {
+	if err := unmarshalExact(event.Content(), &memberContent); err != nil {
 		return nil, spec.BadJSON(err.Error())
 	}
 	if memberContent.AuthorisedVia != "" {
